@@ -418,6 +418,28 @@ func lenGuard(fn *ssa.Function, site ssa.Instruction, s, i ssa.Value) (bool, str
 // site: a dominating "!= nil" branch on the same path without killers, or no
 // killer since function entry and every caller guarantees it.
 func (cfg *PanicCfg) nilGuard(fn *ssa.Function, site ssa.Instruction, v ssa.Value, depth int) (bool, string) {
+	// the very same SSA value was tested against nil on the dominating branch
+	// (an SSA value cannot change, so nothing in between matters)
+	for _, br := range dominatingBranches(site.Block()) {
+		cond, ok := br.If.Cond.(*ssa.BinOp)
+		if !ok || cond.Op != token.NEQ && cond.Op != token.EQL {
+			continue
+		}
+		x, y := cond.X, cond.Y
+		if c, ok := x.(*ssa.Const); ok && c.Value == nil {
+			x, y = y, x
+		}
+		if c, ok := y.(*ssa.Const); !ok || c.Value != nil || x != v {
+			continue
+		}
+		nonNilSucc := 0
+		if cond.Op == token.EQL {
+			nonNilSucc = 1
+		}
+		if br.Succ == nonNilSucc {
+			return true, "the same value is tested against nil on the dominating branch"
+		}
+	}
 	path, ok := accessPath(v)
 	if !ok {
 		return false, "the value is not a load of a parameter-rooted path"
@@ -636,6 +658,23 @@ func (cfg *PanicCfg) nonNilValue1(v ssa.Value, depth int) (bool, string) {
 		if c, ok := x.Tuple.(*ssa.Call); ok {
 			if f := c.Call.StaticCallee(); f != nil && strings.HasPrefix(f.String(), "context.With") {
 				return true, "library result"
+			}
+			// a result of a module function all of whose returns are non-nil at that position
+			if f := c.Call.StaticCallee(); f != nil && load.InModule(f) && f.Blocks != nil && depth < 3 {
+				all, n := true, 0
+				for _, b := range f.Blocks {
+					for _, in := range b.Instrs {
+						if r, ok := in.(*ssa.Return); ok && x.Index < len(r.Results) {
+							n++
+							if ok, _ := cfg.nonNilValue(r.Results[x.Index], depth+1); !ok {
+								all = false
+							}
+						}
+					}
+				}
+				if all && n > 0 {
+					return true, "every return of " + f.Name() + " yields a non-nil value at this position"
+				}
 			}
 		}
 	case *ssa.Slice:
